@@ -71,8 +71,10 @@ JPcTrace(e) ==
      \cup BadB("binding_pc_step_is_model_step",
                \E k \in 1..n : \/ Todo(k) # PcTodo(P, Res(k - 1), Todo(k - 1), Src(k))
                                \/ e.pops[k].nresult # Cardinality(Res(k)))
-     \cup BadB("binding_pc_stops_at_limit_or_exhaustion", n > e.limit \/ ~(Todo(n) = {} \/ n = e.limit))
-     \cup BadB("binding_pc_returns_final_state", Confs(e.res) # Res(n))
+     \cup BadB("binding_pc_stops_at_limit_or_exhaustion",
+               n > e.limit \/ (IF "npops" \in DOMAIN e THEN e.npops > e.limit ELSE FALSE) \/ ~(Todo(n) = {} \/ n = e.limit))
+     \cup BadB("binding_pc_returns_final_state",
+               (IF "npops" \in DOMAIN e THEN e.npops <= e.limit ELSE TRUE) /\ Confs(e.res) # Res(n))
 
 (* dfa_hopfcroft: states[k] = (P, W) before the k-th pop, pops[k] = <<W, a>>, final P *)
 JHopTrace(e) ==
